@@ -172,3 +172,164 @@ Section ElectionFacts2.
       left. unfold vol in HV. cbn in HV. rewrite <- HV. exact Hr.
   Qed.
 End ElectionFacts2.
+
+(* ------------------------------------------------------------------ *)
+(** * Sorted logs, agreement with a leader log, the election restriction *)
+
+Definition terms_le (L : list ent) (b : N) : Prop := forall e, In e L -> eterm e <= b.
+Definition terms_lt (L : list ent) (b : N) : Prop := forall e, In e L -> eterm e < b.
+
+Definition sorted (L : list ent) : Prop :=
+  forall i j, (1 <= i)%nat -> (i <= j)%nat -> (j <= length L)%nat -> term_at L i <= term_at L j.
+
+Lemma term_at_In L j : (1 <= j <= length L)%nat -> exists e, In e L /\ eterm e = term_at L j.
+Proof.
+  intros Hj. destruct j as [|j]; [lia|]. cbn. destruct (nth_error L j) as [e|] eqn:E.
+  - exists e. split; [eapply nth_error_In; exact E|reflexivity].
+  - apply nth_error_None in E. lia.
+Qed.
+
+Lemma last_term_at L : last_term L = term_at L (length L).
+Proof.
+  unfold last_term. induction L as [|x L IH]; [reflexivity|].
+  destruct L as [|y L]; [reflexivity|].
+  change (last (x :: y :: L) (0, 0)) with (last (y :: L) (0, 0)). rewrite IH. reflexivity.
+Qed.
+
+Lemma terms_le_firstn L m b : terms_le L b -> terms_le (firstn m L) b.
+Proof. intros H e He. apply H. rewrite <- (firstn_skipn m L). apply in_or_app. left. exact He. Qed.
+
+Lemma terms_le_mono L a b : a <= b -> terms_le L a -> terms_le L b.
+Proof. intros Hab H e He. specialize (H e He). lia. Qed.
+
+Lemma terms_le_snoc L e b : terms_le L b -> eterm e <= b -> terms_le (L ++ [e]) b.
+Proof. intros H He x Hx. apply in_app_iff in Hx. destruct Hx as [Hx|[<-|[]]]; auto. Qed.
+
+Lemma sorted_nil : sorted [].
+Proof. intros i j Hi Hij Hj. cbn in Hj. lia. Qed.
+
+Lemma sorted_firstn L m : sorted L -> sorted (firstn m L).
+Proof.
+  intros H i j Hi Hij Hj. rewrite firstn_length in Hj. rewrite !term_at_firstn by lia. apply H; lia.
+Qed.
+
+Lemma sorted_snoc L e : sorted L -> terms_le L (eterm e) -> sorted (L ++ [e]).
+Proof.
+  intros HS HL i j Hi Hij Hj. rewrite app_length in Hj. cbn in Hj.
+  destruct (Nat.eq_dec j (S (length L))) as [->|Hne].
+  - rewrite term_at_app_last. destruct (Nat.eq_dec i (S (length L))) as [->|Hni].
+    + rewrite term_at_app_last. lia.
+    + rewrite term_at_app_l by lia. destruct (term_at_In L i) as (x & Hx & <-); [lia|]. apply HL. exact Hx.
+  - rewrite !term_at_app_l by lia. apply HS; lia.
+Qed.
+
+Lemma good_sorted lg L : (forall t, sorted (lg t)) -> good lg L -> sorted L.
+Proof.
+  intros HS HG i j Hi Hij Hj. destruct (HG j) as [Hl He]; [lia|].
+  rewrite <- (term_at_firstn L j i), <- (term_at_firstn L j j) by lia. rewrite He.
+  rewrite !term_at_firstn by lia. apply HS; lia.
+Qed.
+
+Definition own (lg : N -> list ent) (T : N) (k : nat) : Prop :=
+  (1 <= k <= length (lg T))%nat /\ term_at (lg T) k = T.
+
+Definition Agree (lg : N -> list ent) (T : N) (k : nat) (L : list ent) : Prop :=
+  (k <= length L)%nat /\ firstn k L = firstn k (lg T).
+
+Lemma ent_eq_dec (a b : ent) : {a = b} + {a <> b}.
+Proof. decide equality; apply N.eq_dec. Qed.
+
+Lemma Agree_dec lg T k L : {Agree lg T k L} + {~ Agree lg T k L}.
+Proof.
+  unfold Agree. destruct (le_dec k (length L)) as [H1|H1]; [|right; tauto].
+  destruct (list_eq_dec ent_eq_dec (firstn k L) (firstn k (lg T))) as [H2|H2]; [left; auto|right; tauto].
+Qed.
+
+Lemma Agree_self lg T k : (k <= length (lg T))%nat -> Agree lg T k (lg T).
+Proof. intros H. split; [exact H|reflexivity]. Qed.
+
+Lemma Agree_le lg T k j L : (j <= k)%nat -> Agree lg T k L -> Agree lg T j L.
+Proof. intros Hjk [H1 H2]. split; [lia|]. eapply firstn_eq_le; eassumption. Qed.
+
+Lemma Agree_term_at lg T k L : own lg T k -> Agree lg T k L -> term_at L k = T.
+Proof. intros [_ Ho] [_ Ha]. rewrite <- Ho. apply term_at_firstn_eq. exact Ha. Qed.
+
+Lemma Agree_app lg T k L X : Agree lg T k L -> Agree lg T k (L ++ X).
+Proof. intros [H1 H2]. split; [rewrite app_length; lia|]. rewrite firstn_app_le by exact H1. exact H2. Qed.
+
+Lemma Agree_prefix lg T k L' : (exists suf, L' = firstn k (lg T) ++ suf) -> (k <= length (lg T))%nat -> Agree lg T k L'.
+Proof.
+  intros [suf ->] Hk. assert (Hl : length (firstn k (lg T)) = k) by (rewrite firstn_length; lia).
+  split; [rewrite app_length; lia|]. rewrite firstn_app_le by lia. rewrite firstn_firstn_le by lia. reflexivity.
+Qed.
+
+(* agreement survives the growth of the leader logs *)
+Lemma own_grows lg lg' T k : grows lg lg' -> own lg T k -> own lg' T k.
+Proof.
+  intros Hg [H1 H2]. destruct (Hg T) as [suf Hs]. unfold own. rewrite Hs.
+  split; [rewrite app_length; lia|]. rewrite term_at_app_l by lia. exact H2.
+Qed.
+
+Lemma own_shrinks lg lg' T k : grows lg lg' -> own lg' T k -> (k <= length (lg T))%nat -> own lg T k.
+Proof.
+  intros Hg [H1 H2] Hk. destruct (Hg T) as [suf Hs]. rewrite Hs in H2.
+  rewrite term_at_app_l in H2 by lia. split; [lia|exact H2].
+Qed.
+
+Lemma Agree_grows lg lg' T k L : grows lg lg' -> (k <= length (lg T))%nat -> Agree lg T k L <-> Agree lg' T k L.
+Proof.
+  intros Hg Hk. destruct (Hg T) as [suf Hs]. unfold Agree. rewrite Hs. rewrite firstn_app_le by exact Hk. reflexivity.
+Qed.
+
+(* an adopted prefix of an agreeing leader log that is not a truncation of an agreeing log agrees *)
+Lemma Agree_adopt lg T k old src m :
+  Agree lg T k old -> Agree lg T k src -> is_prefix (firstn m src) old = false -> (m <= length src)%nat ->
+  Agree lg T k (firstn m src).
+Proof.
+  intros [Ho1 Ho2] [Hs1 Hs2] Hnp Hm. apply is_prefix_false in Hnp.
+  destruct (le_lt_dec k m) as [Hkm|Hkm].
+  - split; [rewrite firstn_length; lia|]. rewrite firstn_firstn_le by exact Hkm. exact Hs2.
+  - exfalso. apply Hnp. assert (E : firstn m src = firstn m old).
+    { apply firstn_eq_le with (k := k); [lia|congruence]. }
+    rewrite E. apply firstn_prefix.
+Qed.
+
+(* The election restriction: a candidate log at least as up-to-date as a log that
+   agrees with the leader log of T up to an own-term index k agrees too, unless a
+   leader of an intermediate term does not (escape B). *)
+Lemma up_to_date_agree lg T k t C V (B : Prop) :
+  (forall u, sorted (lg u)) -> good lg C -> good lg V -> terms_lt C t ->
+  own lg T k -> Agree lg T k V -> up_to_date C V = true ->
+  (forall u, T < u -> u < t -> lg u <> [] -> Agree lg T k (lg u) \/ B) ->
+  Agree lg T k C \/ B.
+Proof.
+  intros HS HC HV HCt Ho HaV Hu HN.
+  pose proof (good_sorted lg V HS HV) as HsV.
+  pose proof (Agree_term_at lg T k V Ho HaV) as HVk.
+  destruct Ho as [[Hk1 Hk2] HoT]. destruct HaV as [HV1 HV2].
+  assert (HlV : T <= last_term V).
+  { rewrite last_term_at, <- HVk. apply HsV; lia. }
+  unfold up_to_date in Hu. rewrite !last_term_at in *.
+  assert (Hcase : (term_at V (length V) < term_at C (length C)) \/
+                  (term_at C (length C) = term_at V (length V) /\ (length V <= length C)%nat)).
+  { apply orb_prop in Hu. destruct Hu as [Hu|Hu]; [left; apply N.ltb_lt; exact Hu|right].
+    apply andb_prop in Hu. destruct Hu as [H1 H2]. apply N.eqb_eq in H1. apply Nat.leb_le in H2. auto. }
+  assert (HCne : (1 <= length C)%nat).
+  { destruct Hcase as [Hc|[_ Hc]]; [|lia]. destruct C; [cbn in Hc; lia|cbn; lia]. }
+  set (u := term_at C (length C)) in *.
+  assert (HuT : T <= u) by (destruct Hcase as [Hc|[Hc _]]; lia).
+  assert (Hut : u < t).
+  { destruct (term_at_In C (length C)) as (e & He & Ee); [lia|]. fold u in Ee. rewrite <- Ee. apply HCt. exact He. }
+  destruct (HC (length C)) as [HCl HCe]; [lia|]. fold u in HCl, HCe. rewrite firstn_all in HCe.
+  destruct (N.eq_dec u T) as [EuT|NuT].
+  - left. destruct Hcase as [Hc|[_ Hc]]; [lia|]. rewrite EuT in *.
+    split; [lia|]. rewrite HCe. apply firstn_firstn_le. lia.
+  - assert (Hne : lg u <> []) by (destruct (lg u); [cbn in HCl; lia|discriminate]).
+    destruct (HN u) as [[Hu1 Hu2]|HB]; [lia|exact Hut|exact Hne| |right; exact HB].
+    left. destruct (le_lt_dec k (length C)) as [Hkm|Hkm].
+    + split; [exact Hkm|]. rewrite HCe. rewrite firstn_firstn_le by exact Hkm. exact Hu2.
+    + exfalso. assert (E1 : term_at (lg u) (length C) = u).
+      { unfold u at 2. rewrite HCe at 2. rewrite term_at_firstn by lia. reflexivity. }
+      assert (E2 : term_at (lg u) k = T) by (rewrite <- HoT; apply term_at_firstn_eq; exact Hu2).
+      pose proof (HS u (length C) k) as Hs. rewrite E1, E2 in Hs. specialize (Hs HCne). lia.
+Qed.
